@@ -49,3 +49,18 @@ mut('C15', 'one-bad-variable-tolerated', [(ES, "        if len(bad_variables) > 
 mut('C15', 'absolute-test-dropped', [(ES, "            if abs(lastval-prev) > self.ParameterInitialSteadyStateErrorToler:\n                if abs(lastval) < 1e-4:", "            if abs(lastval-prev) > 10. * self.ParameterInitialSteadyStateErrorToler:\n                if abs(lastval) < 1e-4:")], 'accepted_so_far')
 ben('C15', 'rename-locals', [(ES, "            lastval = TS[-1]\n            prev = TS[-2]", "            lastval = TS[len(TS) - 1]\n            prev = TS[len(TS) - 2]")])
 ben('C15', 'log-text', [(ES, "Logger('Variables that did not converge in initial equilibrium')", "Logger('Variables that did not converge in the initial steady state search')")])
+
+# ---- C06 ---------------------------------------------------------------------------------------------
+mut('C06', 'AddTerm-subtracts', [('equation.py', "other.Constant += term.Constant", "other.Constant -= term.Constant")], 'den_additive')
+mut('C06', 'AddTerm-merges-into-blob', [('equation.py', "if term.Term == other.Term and not other.IsBlob:", "if term.Term == other.Term:")], ['inv', 'bounded'])
+mut('C06', 'AddTerm-overwrites-constant', [('equation.py', "other.Constant += term.Constant", "other.Constant = term.Constant")], 'den_additive')
+mut('C06', 'AddTerm-match-inverted', [('equation.py', "if term.Term == other.Term and not other.IsBlob:", "if term.Term != other.Term and not other.IsBlob:")], ['no_earlier_match', 'den_additive'])
+mut('C06', 'AddTerm-blob-anywhere', [('equation.py', "        if len(self.TermList) > 0:\n            if term.IsBlob:", "        if len(self.TermList) > 1:\n            if term.IsBlob:")], ['must_raise', 'inv'])
+mut('C06', 'AddCashFlow-income-ignores-exclusion', [('sector.py', "                    if term_obj.Term == excluded:\n                        is_income = False", "                    if term_obj.Term == excluded:\n                        is_income = True")], 'INC_gains')
+mut('C06', 'AddCashFlow-exclusion-any-sector', [('sector.py', "                if obj.ID == self.ID:\n                    if term_obj.Term == excluded:", "                if obj.ID >= 0:\n                    if term_obj.Term == excluded:")], 'INC_gains')
+mut('C06', 'AddCashFlow-F-twice', [('sector.py', "        self.EquationBlock['F'].AddTerm(term)\n        if is_income:\n            # Need", "        self.EquationBlock['F'].AddTerm(term)\n        if is_income and not term.startswith('-'):\n            self.EquationBlock['F'].AddTerm(term)\n        if is_income:\n            # Need")], ['F_gains', 'ledger'])
+mut('C06', 'AddCashFlow-nonincome-into-INC', [('sector.py', "        if is_income:\n            self.EquationBlock['INC'].AddTerm(term)", "        if is_income or term.startswith('-'):\n            self.EquationBlock['INC'].AddTerm(term)")], 'INC_gains')
+mut('C06', 'AddCashFlow-overwrites-definition', [('sector.py', "            if rhs == '' or rhs == '0.0':\n                self.SetEquationRightHandSide(term, eqn)", "            if rhs == '' or rhs == '0.0' or len(rhs) < 3:\n                self.SetEquationRightHandSide(term, eqn)")], 'sector-ledgers', deductive_only=False)
+ben('C06', 'AddTerm-rename', [('equation.py', "        for other in self.TermList:\n            if term.Term == other.Term and not other.IsBlob:\n                # Already exists; just add the constants together.\n                other.Constant += term.Constant\n                return",
+     "        for other in self.TermList:\n            if other.IsBlob:\n                continue\n            if other.Term == term.Term:\n                other.Constant = other.Constant + term.Constant\n                return")])
+ben('C06', 'AddCashFlow-log', [('sector.py', "        term = term.strip()\n        if len(term) == 0:\n            return\n        term_obj = Term(term)", "        term = term.strip()\n        if term == '':\n            return\n        term_obj = Term(term)")])
